@@ -2,6 +2,7 @@ package main
 
 import (
 	"encoding/binary"
+	"strconv"
 	"strings"
 	"sync"
 	"time"
@@ -44,11 +45,15 @@ func runKalias(r *rng, n int) {
 			func(k int) map[string]interface{} { return map[string]interface{}{"fid": uint64(4), "Offset": uint64(9), "Data": []byte(long(byte('e'+k), 300))} }},
 	}
 	for i := 0; i < n && !tooManyHangs(); i++ {
-		if i%(len(ops)+1) == len(ops) {
+		if i%(len(ops)+2) == len(ops) {
 			kaliasReads(r)
 			continue
 		}
-		o := ops[i%(len(ops)+1)]
+		if i%(len(ops)+2) == len(ops)+1 {
+			kaliasReaddirs(r)
+			continue
+		}
+		o := ops[i%(len(ops)+2)]
 		s := newK7(r, 2)
 		s.be.noENOSYS = true
 		// fids: 1, 2 = two directories; 3, 4 = two files opened for writing
@@ -218,3 +223,70 @@ func kaliasReads(r *rng) {
 	}
 	emit("kalias op=reads => answered=%d changed=%d", ans, bad)
 }
+
+// kaliasReaddirs: directory listings in flight on several connections of the process at once, the
+// reply writers blocked for a while: every Rreaddir carries the entries the backend produced for
+// *its* directory (the backend names each entry after the handle it was asked on).
+func kaliasReaddirs(r *rng) {
+	nc := 2 + r.intn(3)
+	s := newK7(r, nc)
+	s.be.direntsByH = true
+	s.be.manyDirents = 150
+	hs := make([]int, nc)
+	for c := 0; c < nc; c++ {
+		hs[c] = s.walk(c, 0, 1, p9.ModeDirectory|0755, "dir"+string(rune('a'+c)))
+		s.call(c, 12, map[string]interface{}{"fid": uint64(1), "Flags": uint64(0)})
+	}
+	rounds := 25 + r.intn(15)
+	for k := 0; k < rounds; k++ {
+		for c := 0; c < nc; c++ {
+			s.send(c, 40, map[string]interface{}{"Directory": uint64(1), "Offset": uint64(k), "Count": uint64(7000 + r.intn(1000))})
+		}
+	}
+	time.Sleep(20 * time.Millisecond)
+	bad, got := 0, 0
+	var mu sync.Mutex
+	var wg sync.WaitGroup
+	for c := 0; c < nc; c++ {
+		wg.Add(1)
+		go func(c int) {
+			defer wg.Done()
+			want := "h" + itoa(hs[c]) + "-"
+			for k := 0; k < rounds; k++ {
+				f, err := s.conns[c].readFrame(10 * time.Second)
+				if err != nil || len(f) < 11 || f[4] != 41 {
+					return
+				}
+				b := f[11:]
+				wrong := false
+				for len(b) >= 24 {
+					l := int(binary.LittleEndian.Uint16(b[22:]))
+					if 24+l > len(b) {
+						wrong = true
+						break
+					}
+					if !strings.HasPrefix(string(b[24:24+l]), want) {
+						wrong = true
+					}
+					b = b[24+l:]
+				}
+				mu.Lock()
+				got++
+				if wrong || len(b) != 0 {
+					bad++
+				}
+				mu.Unlock()
+			}
+		}(c)
+	}
+	wg.Wait()
+	s.close()
+	count("op:readdirs")
+	ans := 0
+	if got == rounds*nc {
+		ans = 1
+	}
+	emit("kalias op=readdirs => answered=%d changed=%d", ans, bad)
+}
+
+func itoa(n int) string { return strconv.Itoa(n) }
